@@ -206,12 +206,21 @@ type LLInstr struct {
 	Line    int
 	Text    string
 	Block   *LLBlock
+	Spec    *LLSpec // conditional br: if-conversion plan (nil: none)
+}
+
+// LLSpec describes a triangle/diamond below a conditional branch whose side blocks are small and free of calls, so
+// that they can be executed under a guard and merged at Join instead of forking.
+type LLSpec struct {
+	SideT, SideF *LLBlock // side block on the true / false edge (nil: that edge goes straight to Join)
+	Join         *LLBlock
 }
 
 type LLBlock struct {
 	Name   string
 	Instrs []*LLInstr
 	Fn     *LLFunc
+	NPreds int
 }
 
 type LLParam struct {
@@ -243,9 +252,9 @@ type LLGlobal struct {
 }
 
 type LLMapDef struct {
-	Name                              string
+	Name                               string
 	Type, KeySize, ValSize, MaxEntries int
-	Flags                             int
+	Flags                              int
 }
 
 type LLModule struct {
@@ -1313,6 +1322,48 @@ func (p *llParser) resolveFunc(f *LLFunc) {
 		case "br", "switch", "ret", "unreachable":
 		default:
 			llFail("%s: block %s does not end in a terminator", f.Name, b.Name)
+		}
+	}
+	for _, b := range f.Blocks {
+		for _, tb := range b.Instrs[len(b.Instrs)-1].Blocks {
+			tb.NPreds++
+		}
+	}
+	// if-conversion plans
+	side := func(b, from *LLBlock) *LLBlock { // returns the join if b is a speculable side block
+		if b == from || b.NPreds != 1 || len(b.Instrs) > 24 {
+			return nil
+		}
+		for i, ins := range b.Instrs {
+			last := i == len(b.Instrs)-1
+			switch {
+			case last:
+				if ins.Op != "br" || len(ins.Blocks) != 1 {
+					return nil
+				}
+			case llBinOps[ins.Op], llCastOps[ins.Op], ins.Op == "getelementptr", ins.Op == "icmp", ins.Op == "select",
+				ins.Op == "load", ins.Op == "store", ins.Op == "atomicrmw":
+			case ins.Op == "call" && (strings.HasPrefix(ins.Callee, "llvm.lifetime.") || strings.HasPrefix(ins.Callee, "llvm.dbg.")):
+			default:
+				return nil
+			}
+		}
+		return b.Instrs[len(b.Instrs)-1].Blocks[0]
+	}
+	for _, b := range f.Blocks {
+		ins := b.Instrs[len(b.Instrs)-1]
+		if ins.Op != "br" || len(ins.Blocks) != 2 || ins.Blocks[0] == ins.Blocks[1] {
+			continue
+		}
+		t, fl := ins.Blocks[0], ins.Blocks[1]
+		jt, jf := side(t, b), side(fl, b)
+		switch {
+		case jt != nil && jf != nil && jt == jf && jt != b && jt != t && jt != fl:
+			ins.Spec = &LLSpec{SideT: t, SideF: fl, Join: jt}
+		case jt != nil && jt == fl && fl != b:
+			ins.Spec = &LLSpec{SideT: t, Join: fl}
+		case jf != nil && jf == t && t != b:
+			ins.Spec = &LLSpec{SideF: fl, Join: t}
 		}
 	}
 }
